@@ -2,6 +2,7 @@
 package main
 
 import (
+	"time"
 	"flag"
 	"fmt"
 	"os"
@@ -46,7 +47,12 @@ func main() {
 			cfg.Params[a[:i]] = v
 		}
 	}
+	t0 := time.Now()
 	ts, err := prog.BuildTS(f, cfg, *solver, 60000)
+	fmt.Println("build relation:", time.Since(t0))
+	if ts != nil {
+		fmt.Printf("build stats: %+v\n", ts.Stats)
+	}
 	if err != nil {
 		fmt.Println("build:", err)
 		os.Exit(1)
@@ -56,13 +62,22 @@ func main() {
 		for _, l := range ts.Describe() {
 			fmt.Println(l)
 		}
+		for _, p := range ts.Safety {
+			fmt.Println("safety", p.Name, p.Term.String())
+		}
+		for _, p := range ts.Final {
+			fmt.Println("final", p.Name, p.Term.String())
+		}
+		for _, c := range ts.CellDescs() {
+			fmt.Println("cell", c)
+		}
 	}
-	res, err := ts.CheckBMC(symgo.BMCOptions{K: *K, Pool: *pool, Solver: *solver, TimeoutMS: 1200000, Parallel: *par, DumpTo: *dump, NoPOR: *nopor})
+	res, err := ts.CheckBMC(symgo.BMCOptions{K: *K, Pool: *pool, Solver: *solver, TimeoutMS: 1200000, Parallel: *par, DumpTo: *dump, NoPOR: *nopor, NoBlocked: cfg.Params["noblocked"] == 1, ProgressB: int(cfg.Params["progress"])})
 	if err != nil {
 		fmt.Println("bmc:", err)
 		os.Exit(1)
 	}
-	fmt.Printf("K=%d violated=%q kind=%s unknown=%v notQuiescent=%v poolOverflow=%v queries=%d solver=%.1fs terms=%d\n", res.K, res.Violated, res.Kind, res.Unknown, res.NotQuiescent, res.PoolOverflow, res.Queries, res.SolverS, res.Terms)
+	fmt.Printf("K=%d violated=%q kind=%s unknown=%v notQuiescent=%v poolOverflow=%v range=%v widened=%v queries=%d solver=%.1fs terms=%d\n", res.K, res.Violated, res.Kind, res.Unknown, res.NotQuiescent, res.PoolOverflow, res.RangeExceeded, res.Widened, res.Queries, res.SolverS, res.Terms)
 	if res.Violated != "" {
 		fmt.Println("threads:", res.Threads)
 		fmt.Println("schedule:", res.Schedule)
